@@ -9,7 +9,7 @@ for d in sorted(glob.glob(os.path.join(H,'seeded','*'))):
     rows.append('| %s | %s | %s | %s: %s |' % (os.path.basename(d), m['breaks_property'], m['needs_to_manifest'].replace('|','/'), m['detected_by_check'], m['what_was_run'].replace('|','/')))
 det=[json.load(open(os.path.join(d,'meta.json')))['detected_by_check'] for d in sorted(glob.glob(os.path.join(H,'seeded','*')))]
 ny=sum(1 for x in det if x=='yes'); na=sum(1 for x in det if x=='after-strengthening'); nn=len(det)-ny-na
-tail=tail.replace('SEEDED_COUNTS','Of the %d changes, %d were caught by the check of their property as it stood, %d only after the generator or oracle named in the table was strengthened, and %d is not caught by the check of the property it was written for (the table says by which check it is caught instead).' % (len(det), ny, na, nn))
+tail=tail.replace('SEEDED_COUNTS','Of the %d changes, %d were caught by the check of their property as it stood, %d only after the generator or oracle named in the table was strengthened, %s.' % (len(det), ny, na, ('and %d is not caught by the check of the property it was written for (the table says by which check it is caught instead)' % nn) if nn else 'none is missed now'))
 tail=tail.replace('SEEDED_TABLE','\n'.join(rows))
 kf=json.load(open(os.path.join(H,'known_findings.json')))['findings']
 fx=[f for f in kf if f['status']=='fixed']
